@@ -280,7 +280,7 @@ pub fn check_rename(t: &Truth, mode: usize, words: &[W], acc: &mut Acc) -> CaseR
 }
 
 fn run_shard(ctx: &ShardCtx, acc: &mut Acc) {
-    let n = ctx.tier.pick(500, 8_000);
+    let n = ctx.tier.pick(5_000, 50_000);
     drive(ctx, "union", n, 500, acc, &|ch, acc| {
         let (a, mut b) = disjoint_truths(ch);
         b.dispatcher = ch.below(3) as u8;
